@@ -46,6 +46,8 @@ def parse_fn(t, pos):
         n = int(t[pos]); d["q"] = [fl(x) for x in t[pos + 1:pos + 1 + n]]; pos += 1 + n
     elif kind in ("powc", "plat"):
         d["ip"] = int(t[pos]); d["c"] = fl(t[pos + 1]); pos += 2
+    elif kind == "rbump":
+        d["ip"] = int(t[pos]); d["s"] = fl(t[pos + 1]); d["c"] = fl(t[pos + 2]); pos += 3
     elif kind == "sat":
         d["s"] = fl(t[pos]); d["c"] = fl(t[pos + 1]); pos += 2
     elif kind == "scale":
@@ -78,7 +80,7 @@ def habs(cs, x):
     return horner([abs(Fraction(c)) for c in cs], abs(x))
 
 
-TRANSC = ("atan", "erf", "tanh", "rpow", "expm", "logx", "cosx", "gauss", "dexp")
+TRANSC = ("atan", "erf", "tanh", "rpow", "expm", "logx", "cosx", "gauss", "dexp", "gbump")
 
 
 def feval(d, x):
@@ -97,6 +99,10 @@ def feval(d, x):
             return None
         v = x ** d["ip"]
         return v - Fraction(d["c"]), abs(v) * (1 + abs(d["ip"])) + abs(Fraction(d["c"]))
+    if k == "rbump":
+        e = (1 / (1 + x * x)) ** d["ip"]
+        c, s_ = Fraction(d["c"]), Fraction(d["s"])
+        return c * (x - s_) * e, abs(c) * e * (abs(x) + abs(s_)) * (4 + d["ip"]) + Fraction(1, 2 ** 1022)
     if k == "plat":
         v = (1 / (1 + x * x)) ** d["ip"]
         return v - Fraction(d["c"]), v * (2 + d["ip"]) + abs(Fraction(d["c"]))
@@ -138,6 +144,9 @@ def feval(d, x):
         v = w * mp.log(X / s); der = abs(w) / X; arg = abs(X)
     elif k == "gauss":
         a = X - s; v = mp.exp(-w * a * a); der = 2 * abs(w * a) * v; arg = (abs(X) + abs(s)) * 2 + abs(a)
+    elif k == "gbump":
+        e = mp.exp(-w * X * X)
+        return c * (X - s) * e, abs(c) * e * (abs(X) + abs(s)) * (4 + 2 * abs(w) * X * X) + mp.mpf(2) ** -1022
     elif k == "dexp":
         t = (X - s) if w > 0 else (s - X)
         e1 = mp.exp(-t); e2 = c * mp.exp(-abs(w) * t)
@@ -173,6 +182,8 @@ def fn_str(d):
         return "rat %s %s" % (lst(d["p"]), lst(d["q"]))
     if k in ("powc", "plat"):
         return "%s %d %s" % (k, d["ip"], hx(d["c"]))
+    if k == "rbump":
+        return "rbump %d %s %s" % (d["ip"], hx(d["s"]), hx(d["c"]))
     if k == "sat":
         return "sat %s %s" % (hx(d["s"]), hx(d["c"]))
     if k == "scale":
@@ -187,7 +198,7 @@ def fn_str(d):
 def rq_root(d, xl, xr, acc, oracle_only=False):
     # oracle only: transcendental kinds, and plateaus so low that f*f underflows in double (IEEE underflow is
     # not in the exact-rational model)
-    op = "c02.fam" if oracle_only or d["kind"] in TRANSC or (d["kind"] == "plat" and d["c"] < 1e-140) else "c02.root"
+    op = "c02.fam" if oracle_only or d["kind"] in TRANSC or d["kind"] == "rbump" or (d["kind"] == "plat" and d["c"] < 1e-140) else "c02.root"
     return "%s %s %s %s %s" % (op, fn_str(d), hx(xl), hx(xr), hx(acc))
 
 
@@ -390,7 +401,7 @@ def generate(tier, seed, ctx):
             add(d, a, b, acc_for(r0, b - a), "sat")
     # 6. transcendental (oracle only) ------------------------------------------------------------------------
     for _ in range(260 * N):
-        k = rng.choice(TRANSC)
+        k = rng.choice([t_ for t_ in TRANSC if t_ != "gbump"])   # gbump has its own family (6f)
         w = s = c = 0.0
         if k in ("atan", "erf", "tanh"):
             w = 10.0 ** rng.uniform(-2, 3) * rng.choice([-1, 1]); s = rng.uniform(-3, 3)
@@ -543,6 +554,46 @@ def generate(tier, seed, ctx):
                             if not double_zero(d, a) or double_zero(d, e):
                                 continue
                             add(d, a, e, w * rng.choice([2.0 ** -20, 2.0 ** -6, 0.25]), "guard/zero-end-exact/%d" % len(inner))
+    # 6f. bumps with tiny tails: a sign change in the interior, the envelope hundreds of decades lower at the bracket ends
+    #     (end values 1e-300 ... subnormal, interior up to 1e+200): the midpoint value exceeds both end values enormously
+    for _ in range(40 * N):
+        cc = rng.choice([1.0, -1.0]) * 10.0 ** rng.choice([0, 0, 50, 100, 200, -20])
+        T = 10.0 ** -rng.uniform(300, 322) if rng.random() < 0.7 else 10.0 ** -rng.uniform(200, 300)   # |end value|
+        if rng.random() < 0.5:
+            w = 10.0 ** rng.uniform(-3, 1)
+            L = 30.0
+            for _i in range(60):      # c * L * exp(-w L^2) = T
+                L = math.sqrt(max(math.log(abs(cc) * L / T), 1.0) / w)
+            s0 = L * rng.uniform(-0.3, 0.3)
+            d = dict(kind="gbump", w=w, s=s0, c=cc)
+        else:
+            p = rng.choice([20, 30, 50, 80])
+            L = (abs(cc) / T) ** (1.0 / (2 * p - 1))
+            if L > 1e8:
+                continue
+            s0 = L * rng.uniform(-0.3, 0.3) if rng.random() < 0.7 else 1.0
+            d = dict(kind="rbump", ip=p, s=s0, c=cc)
+        a, b = -L * rng.uniform(0.97, 1.0), L * rng.uniform(0.97, 1.0)
+        try:
+            ok = sign_change(d, a, b) and all(abs(feval(d, Fraction(x))[0]) > 1e-322 for x in (a, b))
+        except Exception:
+            ok = False
+        if ok:
+            add(d, a, b, acc_for(max(abs(s0), L * 1e-3), b - a), "bump/%s" % d["kind"])
+    # 7c. magnitude dimension of the end values: same-sign and opposite-sign pairs whose product underflows to zero ----
+    tiny = [1e-200, 1e-320, 2.0 ** -600, 5e-324, 1.5]
+    for (a, b) in ((-3.0, 3.5),) if not thorough else ((0.0, 3.0), (-3.0, 3.5)):
+        m0 = (a + b) / 2 + (b - a) / 8
+        inners = [("0", dict(kind="poly", p=[1.0, 0.0, 1.0])), ("1", dict(kind="poly", p=[-m0, 1.0])),
+                  ("2", dict(kind="poly", p=poly_from_roots([m0, m0 - (b - a) / 4])))]
+        for ml in tiny:
+            for mr in tiny:
+                for (sl, sr) in ((1, 1), (-1, -1), (1, -1), (-1, 1)):
+                    for (ni, inner) in inners:
+                        d = dict(kind="at", t=a, v=sl * ml, inner=dict(kind="at", t=b, v=sr * mr, inner=inner))
+                        add(d, a, b, (b - a) * 2.0 ** -rng.randint(4, 20),
+                            "guard/tiny-ends/%s/roots%s" % ("same" if sl == sr else "opposite", ni),
+                            oracle_only=(sl != sr))   # entering the loop with end values 1e-200 below the interior: IEEE underflow of the products is not in the model
     # 7b. deterministic: the full cross product of end-value classes {neg, pos, zero, NaN, +inf, -inf} at the two
     #     ends (findRoot_guard_table), both orders, over inner functions with and without an interior root -------
     endvals = [("neg", -1.5), ("pos", 2.0), ("zero", 0.0), ("nan", math.nan), ("pinf", math.inf), ("ninf", -math.inf)]
@@ -689,6 +740,22 @@ def compare_sign(q, impl, model, ctx):
     return []
 
 
+def err_clause(q, impl, ctx):
+    """findRoot_guard_table: a bracket that is rejected (NaN at an end / no sign change) is rejected after exactly the two
+    evaluations at the ends; any further evaluation means the checks before the loop let it through"""
+    t = toks(impl)
+    if len(t) >= 2 and t[0] == "evals":
+        n = int(t[1])
+        lo, hi = min(q["xl"], q["xr"]), max(q["xl"], q["xr"])
+        flo, fhi = feval(q["fn"], Fraction(lo)), feval(q["fn"], Fraction(hi))
+        rejectable = flo is None or fhi is None or sgn(flo[0]) * sgn(fhi[0]) > 0
+        bump(ctx, "diagnostic exits with evaluation count")
+        if rejectable and n != 2:
+            return [fail("prop", "a bracket without sign change / with NaN ends was not rejected after exactly the two end evaluations",
+                         "%d evaluations before the diagnostic exit" % n)]
+    return []
+
+
 def compare(rq, impl, model, ctx):
     q = parse_rq(rq)
     if q["op"] == "c02.sign":
@@ -711,6 +778,7 @@ def compare(rq, impl, model, ctx):
             out.append(fail("prop", "a bracket with a sign change terminated the process", ""))
     if tag(impl) == "err":
         ctx.setdefault("results", {})[rq] = "err"
+        out += err_clause(q, impl, ctx)
     iters = 0
     kind = tag(impl)
     if both:
@@ -791,6 +859,7 @@ def oracle_only(rq, impl, ctx):
         flo, fhi = feval(q["fn"], Fraction(lo)), feval(q["fn"], Fraction(hi))
         if flo is not None and fhi is not None and sgn(flo[0]) * sgn(fhi[0]) <= 0:
             return [fail("prop", "a bracket with a sign change terminated the process", "")]
+        return err_clause(q, impl, ctx)
     return []
 
 
